@@ -150,7 +150,83 @@ def extract(repo):
             unzip = "jax.util.unzip2" in seg
     if mode is None:
         raise Unsupported("pytree registration function not found")
-    return dict(classes=classes, flatten_mode=mode, uses_removed_unzip2=unzip)
+    return dict(classes=classes, flatten_mode=mode, uses_removed_unzip2=unzip, tests=control_flow_tests(repo))
+
+
+# ---- control-flow tests (trace safety): every `if` / `while` / conditional-expression / assert test of the library's
+# numerical code, as a small expression tree whose staticness is decided IN COQ (SchemaThm.control_flow_static):
+# static = decided by None-ness, shapes / ndim / len, the integer size attributes R, D, Dx, Dy, Da, Dk, Du, Dphi, boolean
+# keyword flags, isinstance and literals -- never by the VALUE of an array (which is a tracer under jit / vmap / grad).
+DIM_ATTRS = {"R", "D", "Dx", "Dy", "Da", "Dk", "Du", "Dphi", "ndim", "shape", "num_cond_dim", "num_control_dim", "num_dim"}
+CF_FILES = ["factor.py", "measure.py", "pdf.py", "conditional.py", "approximate_conditional.py",
+            "experimental/truncated_measure.py", "experimental/misc.py", "utils/linalg.py"]
+
+
+def _bool_params(fn):
+    out = set()
+    args = fn.args
+    pos = args.posonlyargs + args.args
+    for a, dflt in zip(pos[len(pos) - len(args.defaults):], args.defaults):
+        if isinstance(dflt, ast.Constant) and isinstance(dflt.value, bool):
+            out.add(a.arg)
+    for a, dflt in zip(args.kwonlyargs, args.kw_defaults):
+        if dflt is not None and isinstance(dflt, ast.Constant) and isinstance(dflt.value, bool):
+            out.add(a.arg)
+    for a in pos + args.kwonlyargs:
+        if a.annotation is not None and ast.unparse(a.annotation) == "bool":
+            out.add(a.arg)
+    return out
+
+
+def _texpr(node, flags):
+    q = lambda t: '"%s"' % ast.unparse(t).replace('"', "'").replace("\\", "/")[:70]
+    if isinstance(node, ast.Constant):
+        return "TConst" if isinstance(node.value, (bool, int, str, type(None))) else "(TOther %s)" % q(node)
+    if isinstance(node, ast.Compare):
+        if len(node.ops) == 1 and isinstance(node.ops[0], (ast.Is, ast.IsNot, ast.Eq, ast.NotEq)) and isinstance(node.comparators[0], ast.Constant) and node.comparators[0].value is None:
+            return "TNone"
+        return "(TCmp [%s])" % "; ".join(_texpr(x, flags) for x in [node.left] + node.comparators)
+    if isinstance(node, ast.BoolOp):
+        return "(TAnd [%s])" % "; ".join(_texpr(x, flags) for x in node.values)
+    if isinstance(node, ast.UnaryOp) and isinstance(node.op, ast.Not):
+        return "(TNot %s)" % _texpr(node.operand, flags)
+    if isinstance(node, ast.Name):
+        return '(TFlag "%s")' % node.id if node.id in flags else "(TOther %s)" % q(node)
+    if isinstance(node, ast.Attribute) and node.attr in DIM_ATTRS:
+        return "TDim"
+    if isinstance(node, ast.Subscript) and isinstance(node.value, ast.Attribute) and node.value.attr == "shape":
+        return "TDim"
+    if isinstance(node, ast.Call) and isinstance(node.func, ast.Name) and node.func.id in ("isinstance", "len"):
+        return "TDim"
+    if isinstance(node, ast.Tuple):
+        return "(TCmp [%s])" % "; ".join(_texpr(x, flags) for x in node.elts)
+    if isinstance(node, ast.BinOp) and isinstance(node.op, (ast.Add, ast.Sub, ast.Mult, ast.FloorDiv)):
+        return "(TCmp [%s; %s])" % (_texpr(node.left, flags), _texpr(node.right, flags))
+    return "(TOther %s)" % q(node)
+
+
+def control_flow_tests(repo):
+    import warnings
+    base = os.path.join(repo, "gaussian_toolbox")
+    out = []
+    for f in CF_FILES:
+        with warnings.catch_warnings():
+            warnings.simplefilter("ignore")
+            tree = ast.parse(open(os.path.join(base, f)).read())
+        def visit(node, flags, where):
+            for ch in ast.iter_child_nodes(node):
+                if isinstance(ch, (ast.FunctionDef, ast.AsyncFunctionDef)):
+                    visit(ch, flags | _bool_params(ch), where + [ch.name])
+                elif isinstance(ch, ast.ClassDef):
+                    visit(ch, flags, where + [ch.name])
+                elif isinstance(ch, ast.Lambda):
+                    visit(ch, flags, where)
+                else:
+                    if isinstance(ch, (ast.If, ast.While, ast.IfExp, ast.Assert)):
+                        out.append(("%s:%s" % (f, ".".join(where)), ch.lineno, _texpr(ch.test, flags)))
+                    visit(ch, flags, where)
+        visit(tree, set(), [])
+    return out
 
 
 def coq_str(s):
@@ -171,6 +247,10 @@ def to_coq(sch):
         dk = "None" if c["dict_keys"] is None else "(Some [" + "; ".join(coq_str(k) for k in c["dict_keys"]) + "])"
         items.append("  Cls %s %s %s %s" % (coq_str(c["name"]), fl, at, dk))
     lines.append(";\n".join(items))
+    lines.append("].")
+    lines += ["Inductive texpr := TNone | TConst | TDim | TFlag (s : string) | TNot (e : texpr) | TAnd (l : list texpr) | TCmp (l : list texpr) | TOther (s : string).",
+              "Definition tests : list (string * nat * texpr) := ["]
+    lines.append(";\n".join('  (%s, %d, %s)' % (coq_str(w), ln, e) for w, ln, e in sch.get("tests", [])))
     lines.append("].")
     return "\n".join(lines) + "\n"
 
